@@ -90,6 +90,7 @@ def _plan(tier):
 def bounds(tier):
     return {"lattices": [{"component_alphabet": a, "tensors": len(a) ** 6, "scalar_calls": s} for a, s in _plan(tier)],
             "rotations": list(_rotations(tier)), "scales": _scales(tier),
+            "call_histories": {"depth": HIST_DEPTH[tier], "operations": ["%s.%s" % o for o in HIST_OPS], "tensors": HIST_TENSORS.tolist()},
             "call_styles": ["column", "scalar (python floats)", "df.equistress accessor (shuffled columns, non-default index)"]}
 
 
@@ -99,6 +100,9 @@ def shards(tier):
         order = sorted(alpha, key=lambda x: (abs(x), x))          # simplest first: zero tensor in the first shard
         for s11, s22 in itertools.product(order, repeat=2):
             out.append((tier, alpha, s11, s22, scalar_for))
+    nops = range(len(HIST_OPS))
+    out.append(("history", 1, ()))
+    out += [("history", HIST_DEPTH[tier], (i, j)) for i in nops for j in nops]
     return out
 
 
@@ -376,6 +380,8 @@ def _classes(acc, ref):
 
 
 def run_shard(shard):
+    if shard[0] == "history":
+        return run_history(shard)
     tier, alpha, s11, s22, scalar_for = shard
     acc = Acc()
     rest = sorted(alpha, key=lambda x: (abs(x), x))
@@ -431,7 +437,7 @@ def buffer_history(t, acc=None):
     """The six component arrays are BUFFERS that the caller re-uses: evaluate, double their contents in place, evaluate
     again with the very same array objects.  The second answer must be that of fresh arrays holding the doubled values."""
     import pylife.stress.equistress as EQ
-    bufs = [np.ascontiguousarray(t[:, i]) for i in range(6)]
+    bufs = [t[:, i].copy() for i in range(6)]      # copies: with a single row a column slice is contiguous and would alias t
     with warnings.catch_warnings():
         warnings.simplefilter("ignore")
         for f in SCALAR_FUNCS:
@@ -469,6 +475,34 @@ def buffer_history(t, acc=None):
                             {"rows": len(big), "long_column": float(second[i]), "short_column": float(fresh[f][i])}))
     if acc is not None:
         acc.evaluations += 2 * len(big) * len(SCALAR_FUNCS)
+    # integer-valued components handed over with an INTEGER dtype ("scalar or column input" does not say float): int64
+    # columns, short and mesh-sized, and python-int scalars give the numbers of the float columns (1e-9 * ||s||)
+    ti = t.astype(np.int64)
+    if np.array_equal(ti.astype(float), t):
+        bigi = big.astype(np.int64)
+        with warnings.catch_warnings():
+            warnings.simplefilter("ignore")
+            base = _call_columns(t)
+            short_i = {f: np.asarray(getattr(EQ, f)(*[np.ascontiguousarray(ti[:, k]) for k in range(6)]), dtype=float) for f in HIST_FUNCS}
+            long_i = {f: np.asarray(getattr(EQ, f)(*[np.ascontiguousarray(bigi[:, k]) for k in range(6)]), dtype=float)[:len(t)] for f in HIST_FUNCS}
+            m = min(len(t), 25)
+            scal_i = {f: np.array([np.asarray(getattr(EQ, f)(*[int(x) for x in row]), dtype=float).reshape(-1) for row in ti[:m]]) for f in HIST_FUNCS}
+        if acc is not None:
+            acc.evaluations += (len(t) + len(big) + m) * len(HIST_FUNCS)
+        tol = RTOL * np.maximum(eig3.frobenius(t), 1e-300)
+        for f in HIST_FUNCS:
+            for style, got, rows in (("int64-columns", short_i[f], len(t)), ("int64-mesh-sized-columns", long_i[f], len(t)),
+                                     ("python-int-scalars", scal_i[f].reshape(base[f][:m].shape), m)):
+                want = base[f][:rows]
+                tl = tol[:rows] if want.ndim == 1 else tol[:rows, None]
+                bad = ~(np.abs(got - want) <= tl)
+                if bad.ndim > 1:
+                    bad = bad.any(axis=1)
+                if got.shape != want.shape or bad.any():
+                    i = int(np.argmax(bad)) if got.shape == want.shape else 0
+                    out.append(("C17/%s/integer-dtype-input-differs-from-float-input/%s" % (f, style), {"tensor": t[i].tolist(), "style": "buffers"},
+                                {"rows": len(big) if "mesh" in style else rows, "integer_input": np.asarray(got[i]).tolist(), "float_input": np.asarray(want[i]).tolist()}))
+                    break
     for f in list(SCALAR_FUNCS) + ["principals"]:
         a, b = again[f], fresh[f]
         bad = ~((a == b) | (np.isnan(a) & np.isnan(b)))
@@ -481,7 +515,119 @@ def buffer_history(t, acc=None):
     return out
 
 
+# --------------------------------------------------------------------------------------------------- call histories
+# Every sequence of calls up to a depth on KEPT objects: one DataFrame and one accessor object obtained from it at the
+# start (eq = df.equistress), the six caller-owned component arrays, and caller actions in between (assign scaled columns
+# to the frame, change one entry with .loc, scale the component arrays in place, overwrite the result returned last).
+# Oracle for every call: the numbers are those of the plain functions for fresh copies of the CURRENT content (bitwise;
+# those in turn agree with the reference eigenvalue definitions), and results returned earlier are left alone.
+HIST_FUNCS = SCALAR_FUNCS + ("principals",)
+HIST_OPS = [(st, f) for st in ("kept-accessor", "fresh-accessor", "plain") for f in HIST_FUNCS] + \
+           [("caller", a) for a in ("frame-columns-times-3", "frame-loc-entry-plus-5", "arrays-times-2-in-place", "overwrite-last-result")]
+HIST_DEPTH = {"quick": 3, "thorough": 4}
+HIST_TENSORS = np.array([[5, 0, 0, 0, 0, 0], [0, 0, 0, 3, 0, 0], [-4, -4, -4, 0, 0, 0], [2, 2, -1, 0, 0, 0], [0, 0, 0, 0, 0, 0],
+                         [3, -2, 1, 2, -1, 1], [-3, 1, -1, 1, 2, -2]], dtype=float)
+_HIST_EXPECT = {}
+
+
+def _hist_expected(content):
+    key = content.tobytes()
+    if key not in _HIST_EXPECT:
+        fresh = _call_columns(content.copy())
+        lam = eig3.jacobi_eigenvalues(content)
+        d, tol = eig3.definitions(lam), RTOL * np.maximum(eig3.frobenius(content), 1e-300)
+        ok = all(np.all(np.abs(fresh[f] - d[f]) <= tol) for f in ("mises", "tresca", "max_principal", "min_principal")) and \
+            np.all(np.abs(fresh["principals"] - lam) <= tol[:, None]) and \
+            all(np.all(np.abs(np.abs(fresh[f]) - d[FAMILY[f]]) <= tol) for f in SCALAR_FUNCS if f.startswith("signed_")) and \
+            np.all(np.abs(np.abs(fresh["abs_max_principal"]) - d["absmax_magnitude"]) <= tol)
+        _HIST_EXPECT[key] = (fresh, bool(ok))
+    return _HIST_EXPECT[key]
+
+
+def history_run(seq, acc=None):
+    import pandas as pd
+    import pylife.stress.equistress as EQ
+    n = len(HIST_TENSORS)
+    index = pd.Index([3 * (n - i) + 7 for i in range(n)], name="element_id")
+    df = pd.DataFrame({c: HIST_TENSORS[:, VOIGT_POS[c]].copy() for c in ACC_COLUMNS}, index=index)
+    eq = df.equistress
+    bufs = [np.ascontiguousarray(HIST_TENSORS[:, i]).copy() for i in range(6)]
+    canon = sorted(VOIGT_POS, key=VOIGT_POS.get)
+    held, last = [], None
+    for depth, oi in enumerate(seq):
+        st, f = HIST_OPS[oi]
+        if st == "caller":
+            if f == "frame-columns-times-3":
+                df[ACC_COLUMNS] = df[ACC_COLUMNS] * 3.0
+            elif f == "frame-loc-entry-plus-5":
+                df.loc[index[-2], "S11"] = df.loc[index[-2], "S11"] + 5.0
+            elif f == "arrays-times-2-in-place":
+                for b in bufs:
+                    b *= 2.0
+            elif last is not None:
+                obj = held[last][1]
+                try:
+                    if isinstance(obj, np.ndarray):
+                        obj *= 1e-6
+                    else:
+                        obj.iloc[0] = 12345.0
+                    held[last][2] = np.array(obj, dtype=float, copy=True)
+                except (ValueError, TypeError):
+                    pass                                   # read-only result: nothing the caller can overwrite
+            continue
+        content = df[canon].to_numpy(dtype=float, copy=True) if st != "plain" else np.stack([b.copy() for b in bufs], axis=1)
+        before = content.copy()
+        with warnings.catch_warnings():
+            warnings.simplefilter("ignore")
+            try:
+                res = getattr(eq if st == "kept-accessor" else df.equistress, f)() if st != "plain" else getattr(EQ, f)(*bufs)
+            except Exception as e:      # noqa: BLE001
+                return [("C17/%s/history/%s-raises-%s" % (f, st, type(e).__name__), {"at": depth, "message": str(e)[:160]})]
+            expected, agrees_with_reference = _hist_expected(content)
+        if acc is not None:
+            acc.transitions += 1
+            acc.evaluations += n
+        after = df[canon].to_numpy(dtype=float, copy=True) if st != "plain" else np.stack(bufs, axis=1)
+        if not np.array_equal(before, after):
+            return [("C17/%s/history/%s-changes-the-callers-data" % (f, st), {"at": depth, "before": before.tolist(), "after": after.tolist()})]
+        if not agrees_with_reference:
+            return [("C17/%s/history/plain-functions-on-fresh-copies-disagree-with-the-eigenvalue-definitions" % f, {"at": depth, "content": content.tolist()})]
+        got = np.asarray(res, dtype=float)
+        want = expected[f]
+        if got.shape != want.shape or not np.all(_same(got, want)):
+            return [("C17/%s/history/%s-answer-is-not-that-of-the-current-content" % (f, st),
+                     {"at": depth, "got": got.tolist(), "plain_function_on_fresh_copies": want.tolist(), "content": content.tolist()})]
+        for j, (name, obj, snap) in enumerate(held):
+            now = np.asarray(obj, dtype=float)
+            if now.shape != snap.shape or not np.all(_same(now, snap)):
+                return [("C17/%s/history/result-held-by-the-caller-changed-by-a-later-call" % name.split(".")[1],
+                         {"at": depth, "held": name, "later_call": "%s.%s" % (st, f), "was": snap.tolist(), "now": now.tolist()})]
+        held.append(["%s.%s" % (st, f), res, np.array(res, dtype=float, copy=True)])
+        last = len(held) - 1
+    return []
+
+
+def run_history(shard):
+    _, depth, prefix = shard
+    acc = Acc()
+    nops = range(len(HIST_OPS))
+    outcomes = set()
+    for d in range(max(1, len(prefix)), depth + 1):
+        for rest in itertools.product(nops, repeat=d - len(prefix)):
+            seq = tuple(prefix) + rest
+            acc.cases += 1
+            acc.max_depth = max(acc.max_depth, d)
+            if sum(HIST_OPS[i][0] == "caller" for i in seq[:-1]) and HIST_OPS[seq[-1]][0] != "caller":
+                acc.nontrivial += 1
+            for key, detail in history_run(seq, acc):
+                acc.violation(key, {"style": "history", "seq": list(seq), "ops": ["%s.%s" % HIST_OPS[i] for i in seq]}, detail)
+    acc.states += len(_HIST_EXPECT)
+    return acc
+
+
 def replay(case):
+    if case.get("style") == "history":
+        return history_run(case["seq"])
     t = np.array([case["tensor"]], dtype=float)
     style = case.get("style", "column")
     if style == "buffers":
